@@ -314,7 +314,7 @@ class C19(Sim):
         "patch parametrisation: either convention (u along a row of the net, or u across rows) is accepted, but one run must use one convention; "
         "the parameter of an exported vertex is the one the export itself records (attributes 't' / 'uv_coords'), which must form the regular grid linspace(0,1,n)",
         "exported surface cells may be one quad or two triangles per grid cell, any orientation",
-        "rejected parameters are at least 1e-9 outside [0,1] (no claim about the last ulp), finite or infinite, never NaN; any Exception counts as a rejection",
+        "rejected parameters are at least 1e-9 outside [0,1] (no claim about the last ulp), finite, infinite or NaN (not a member of [0,1] either); any Exception counts as a rejection",
         "faults_on is drawn in gen_config (p = 1/2) instead of taken from the seed's parity, because the PRNG mode (engine key 'prng_mode') must be "
         "'shared_stream' exactly in the faulted runs and gen_config does not see the seed; fault-free runs are 'per_call' (3/4) or 'shared_stream' without noise (1/4)",
         "Bezier exports: control points of dimension 2 or 3 for as_polyline (2-D is documented by the code to be padded with z=0), dimension 3 for as_surface",
@@ -406,6 +406,7 @@ class C19(Sim):
                 for i, p in enumerate(pl["points"]):
                     plm.vertices[i] = M.Vec([3.0 * p[0] + 0.5 * p[1], 0.25 * p[1], p[2] + p[0]])
                 call(M.attributes.edge_length, plm)
+                call(sampling.sample_polyline, plm, 3)  # ... and SAMPLED in that shape (never judged): nothing of it may survive the deformation
                 for i, p in enumerate(pl["points"]):
                     plm.vertices[i] = M.Vec([float(x) for x in p])
             self.polylines.append(plm)
@@ -424,6 +425,7 @@ class C19(Sim):
             if stale:
                 call(M.attributes.face_area, m)
                 call(M.attributes.face_normals, m)
+                call(sampling.sample_surface, m, 3)  # sampled in the first shape as well (never judged)
                 for i, p in enumerate(sf["points"]):
                     m.vertices[i] = M.Vec([float(x) for x in p])
             self.surfaces.append(m)
@@ -532,7 +534,7 @@ class C19(Sim):
         return r.choice([1e-9, 1.0 - 1e-9, 5e-324, 1.0 - EPS / 2, 1e-300, 0.25, 0.75])
 
     def _bad_param(self, r):
-        return r.choice([-1e-9, 1.0 + 1e-9, -1.0, 2.0, -0.5, 1.5, 1e300, -1e300, "inf", "-inf", 1.0 + 1e-6, -1e-6, 17.0])
+        return r.choice([-1e-9, 1.0 + 1e-9, -1.0, 2.0, -0.5, 1.5, 1e300, -1e300, "inf", "-inf", 1.0 + 1e-6, -1e-6, 17.0, "nan"])
 
     def _bezier_event(self, c, r):
         ev = self._bezier_event_inner(c, r)
@@ -1090,7 +1092,7 @@ class C19(Sim):
         out = call(self.curves[ev["k"]].evaluate, t)
         self._returned.append(out)
         self.judged += 1
-        return self._expect_reject(out, "curve_reject", "BezierCurve.evaluate", "t<0" if t < 0 else "t>1",
+        return self._expect_reject(out, "curve_reject", "BezierCurve.evaluate", "t<0" if t < 0 else ("t>1" if t > 1 else "t=nan"),
                                    "BezierCurve(<%d points>).evaluate(%r)" % (len(P), float(t)))
 
     def _do_patch_reject(self, ev):
